@@ -1,24 +1,36 @@
 #!/venv/bin/python
-"""Evaluate seeded regressions against the registered checks (developer tool).
+"""Evaluate seeded regressions against the registered checks (developer tool, never part of a check).
 
-usage: tools/seedcheck.py <seed-root> [<id-filter>] [--tier quick|thorough]
-<seed-root> contains <PROP>/<k>/{patch.diff,demo.py,notes.md} (sub-agent output) or <name>/{patch.diff,demo.py,meta.json}.
-For each seed: demo on the clean /repo (must PASS), apply the patch to /repo, demo (must FAIL), baseline tests
-(must pass), every claimed check (records which exit 1), then `git checkout -- .` (always).
+usage: tools/seedcheck.py <seed-root> [<id-filter>] [--tier quick|thorough] [--import] [--jobs N]
+
+<seed-root> contains <PROP>/<k>/{patch.diff,demo.py,notes.md} (sub-agent output) or, for /verif/seeded itself,
+<id>/{patch.diff,demo.py,meta.json}.  Each seed is evaluated in its own scratch git worktree of /repo's HEAD
+(under /tmp, removed afterwards), so /repo itself is never modified and seeds run in parallel:
+  demo on the clean worktree (must PASS) -> apply the patch -> demo (must FAIL) -> baseline tests (must pass)
+  -> every claimed check with --repo <worktree> (records which exit 1 and with which rules).
+--import copies every confirmed seed to /verif/seeded/<PROP>-<k>/ (patch regenerated against the current HEAD,
+demo.py, notes.md, meta.json).
 """
+import concurrent.futures as cf
 import json
 import os
+import shutil
 import subprocess
 import sys
+import tempfile
 
 REPO = "/repo"
 ROOT = os.path.dirname(os.path.dirname(os.path.abspath(__file__)))
 PY = "/venv/bin/python"
+SEEDED = os.path.join(ROOT, "seeded")
 
 
-def sh(cmd, cwd=None, timeout=600):
-    r = subprocess.run(cmd, cwd=cwd, capture_output=True, text=True, timeout=timeout)
-    return r.returncode, (r.stdout + r.stderr)
+def sh(cmd, cwd=None, timeout=900, env=None):
+    try:
+        r = subprocess.run(cmd, cwd=cwd, capture_output=True, text=True, timeout=timeout, env=env)
+        return r.returncode, (r.stdout + r.stderr)
+    except subprocess.TimeoutExpired:
+        return 124, "TIMEOUT"
 
 
 def claimed():
@@ -34,55 +46,127 @@ def find_seeds(root):
     return sorted(out)
 
 
+def seed_id(d, root):
+    rel = os.path.relpath(d, root)
+    return rel.replace(os.sep, "-")
+
+
+def prop_of(d, root):
+    mp = os.path.join(d, "meta.json")
+    if os.path.exists(mp):
+        return json.load(open(mp)).get("property")
+    return os.path.relpath(d, root).split(os.sep)[0]
+
+
+def evaluate(d, root, tier, props, do_import):
+    sid = seed_id(d, root)
+    row = {"seed": sid, "property": prop_of(d, root)}
+    demo = os.path.join(d, "demo.py")
+    patch = os.path.join(d, "patch.diff")
+    wt = tempfile.mkdtemp(prefix=f"sc_{sid}_", dir="/tmp")
+    os.rmdir(wt)
+    rc, o = sh(["git", "-C", REPO, "worktree", "add", "-q", "--detach", wt, "HEAD"])
+    if rc != 0:
+        row["error"] = "worktree: " + o.strip()[:200]
+        return row
+    env = dict(os.environ, PYTHONPATH=wt, PYTHONDONTWRITEBYTECODE="1")
+    try:
+        rc, o = sh([PY, "-W", "ignore", demo], cwd=wt, env=env, timeout=300)
+        row["demo_clean"] = "PASS" if rc == 0 else f"rc={rc}: {o.strip()[-200:]}"
+        rc, o = sh(["git", "-C", wt, "apply", patch])
+        if rc != 0:
+            rc, o = sh(["git", "-C", wt, "apply", "--3way", patch])
+            if rc != 0:
+                row["apply"] = "FAILED: " + o.strip()[:200]
+                return row
+            row["apply"] = "3way"
+            sh(["git", "-C", wt, "reset", "-q"])
+        rc, o = sh([PY, "-W", "ignore", demo], cwd=wt, env=env, timeout=300)
+        row["demo_patched"] = "FAIL" if rc != 0 else "still-PASS"
+        row["demo_output"] = o.strip()[-300:]
+        rc, o = sh([PY, "-m", "pytest", "-q", "-p", "no:cacheprovider", "-x"], cwd=wt, env=env)
+        row["tests"] = o.strip().splitlines()[-1][:60] if o.strip() else "?"
+        hits = {}
+        for p in props:
+            rc, o = sh([PY, "-m", "utverif", "check", p, "--tier", tier, "--no-evidence", "--repo", wt], cwd=ROOT)
+            if rc != 0:
+                rules = sorted({l.split("]")[0][1:] for l in o.splitlines() if l.startswith("[R")})
+                hits[p] = (f"exit{rc}:" + ",".join(rules)) if rc == 1 else "exit2:" + " ".join(
+                    l for l in o.splitlines() if l.startswith("ANALYSIS"))[:160]
+        row["detected_by"] = hits
+        confirmed = row["demo_clean"] == "PASS" and row["demo_patched"] == "FAIL" and "115 passed" in row["tests"]
+        row["confirmed"] = confirmed
+        if do_import and confirmed:
+            dest = os.path.join(SEEDED, sid)
+            os.makedirs(dest, exist_ok=True)
+            rc, diff = sh(["git", "-C", wt, "diff"])
+            with open(os.path.join(dest, "patch.diff"), "w") as f:
+                f.write(diff)
+            shutil.copy(demo, os.path.join(dest, "demo.py"))
+            notes = ""
+            if os.path.exists(os.path.join(d, "notes.md")):
+                shutil.copy(os.path.join(d, "notes.md"), os.path.join(dest, "notes.md"))
+                notes = open(os.path.join(d, "notes.md")).read()
+            head = sh(["git", "-C", REPO, "rev-parse", "--short", "HEAD"])[1].strip()
+            meta_p = os.path.join(dest, "meta.json")
+            meta = json.load(open(meta_p)) if os.path.exists(meta_p) else {}
+            meta.update({
+                "id": sid,
+                "property": row["property"],
+                "origin": "independent sub-agent given only the property text and a scratch worktree",
+                "needs_to_manifest": meta.get("needs_to_manifest") or _needs(notes),
+                "confirmed_at_repo_head": head,
+                "ran": [
+                    f"demo.py on clean worktree of {head}: PASS (exit 0)",
+                    "git apply patch.diff; demo.py: FAIL (exit != 0): " + row["demo_output"].splitlines()[-1][:160]
+                    if row["demo_output"] else "git apply patch.diff; demo.py: FAIL",
+                    "pytest -q -p no:cacheprovider (patched): " + row["tests"],
+                    f"every claimed check, tier {tier}, --repo <patched worktree>",
+                ],
+                "detected_by": hits,
+            })
+            with open(meta_p, "w") as f:
+                json.dump(meta, f, indent=1)
+    finally:
+        sh(["git", "-C", REPO, "worktree", "remove", "--force", wt])
+        shutil.rmtree(wt, ignore_errors=True)
+    return row
+
+
+def _needs(notes: str) -> str:
+    keep = []
+    for ln in notes.splitlines():
+        l = ln.lower()
+        if any(k in l for k in ("manifest", "needs", "only when", "requires", "trigger")):
+            keep.append(ln.strip(" -*"))
+    return " ".join(keep)[:600] or "see notes.md"
+
+
 def main():
-    args = [a for a in sys.argv[1:] if not a.startswith("--")]
+    argv = sys.argv[1:]
     tier = "quick"
-    if "--tier" in sys.argv:
-        tier = sys.argv[sys.argv.index("--tier") + 1]
-        args = [a for a in args if a != tier]
+    jobs = 8
+    do_import = "--import" in argv
+    if "--tier" in argv:
+        tier = argv[argv.index("--tier") + 1]
+    if "--jobs" in argv:
+        jobs = int(argv[argv.index("--jobs") + 1])
+    args = [a for i, a in enumerate(argv) if not a.startswith("--") and (i == 0 or argv[i - 1] not in ("--tier", "--jobs"))]
     root = args[0]
     flt = args[1] if len(args) > 1 else ""
-    rc, out = sh(["git", "-C", REPO, "status", "--porcelain"])
-    if out.strip():
-        print("refusing: /repo has uncommitted changes")
-        return 2
     props = claimed()
+    seeds = [d for d in find_seeds(root) if not flt or flt in d]
     rows = []
-    for d in find_seeds(root):
-        if flt and flt not in d:
-            continue
-        demo = os.path.join(d, "demo.py")
-        patch = os.path.join(d, "patch.diff")
-        row = {"seed": os.path.relpath(d, root)}
-        try:
-            rc, o = sh([PY, "-W", "ignore", demo], cwd=REPO)
-            row["demo_clean"] = "PASS" if rc == 0 else f"rc={rc}"
-            rc, o = sh(["git", "-C", REPO, "apply", patch])
-            if rc != 0:
-                row["apply"] = "FAILED: " + o.strip()[:100]
-                rows.append(row)
-                print(json.dumps(row))
-                continue
-            rc, o = sh([PY, "-W", "ignore", demo], cwd=REPO)
-            row["demo_patched"] = "FAIL" if rc != 0 else "still-PASS"
-            rc, o = sh([PY, "-m", "pytest", "-q", "-p", "no:cacheprovider", "-x"], cwd=REPO)
-            row["tests"] = o.strip().splitlines()[-1][:40] if o.strip() else "?"
-            hits = {}
-            for p in props:
-                rc, o = sh([PY, "-m", "utverif", "check", p, "--tier", tier, "--no-evidence"], cwd=ROOT)
-                if rc != 0:
-                    rules = sorted({l.split("]")[0][1:] for l in o.splitlines() if l.startswith("[R")})
-                    hits[p] = f"exit{rc}:" + ",".join(rules) if rc == 1 else "exit2:" + " ".join(
-                        l for l in o.splitlines() if l.startswith("ANALYSIS"))[:120]
-            row["detected_by"] = hits
-        finally:
-            sh(["git", "-C", REPO, "checkout", "--", "."])
-            sh(["git", "-C", REPO, "clean", "-fdq", "utype"])
-        rows.append(row)
-        print(json.dumps(row))
+    with cf.ThreadPoolExecutor(max_workers=jobs) as ex:
+        for row in ex.map(lambda d: evaluate(d, root, tier, props, do_import), seeds):
+            rows.append(row)
+            short = {k: v for k, v in row.items() if k != "demo_output"}
+            print(json.dumps(short), flush=True)
     n = len(rows)
-    det = sum(1 for r in rows if any(v.startswith("exit1") for v in r.get("detected_by", {}).values()))
-    print(f"\n{n} seeds, {det} detected (exit 1) by some check")
+    conf = [r for r in rows if r.get("confirmed")]
+    det = sum(1 for r in conf if any(v.startswith("exit1") for v in r.get("detected_by", {}).values()))
+    own = sum(1 for r in conf if r.get("detected_by", {}).get(r["property"], "").startswith("exit1"))
+    print(f"\n{n} seeds, {len(conf)} confirmed, {det} detected (exit 1) by some check, {own} by the check of their own property")
     return 0
 
 
